@@ -1045,15 +1045,21 @@ impl CodegenContext {
                         Identifier::new(format!("$macro_{}", self.next_macro_scope_id));
                     self.next_macro_scope_id += 1;
 
-                    self.with_scope(&macro_scope, None, |s| {
-                        for (idx, arg_name) in def.args.iter().enumerate() {
-                            let (expr, _) = args.get(idx).unwrap();
+                    // The arguments belong to the invocation, so they are evaluated in the scope of the invocation and not
+                    // in the scope of the macro body, where a parameter would shadow a symbol of the same name that is used
+                    // in its own argument (e.g. when one macro passes its parameter 'x' on to another macro's 'x')
+                    let mut values = vec![];
+                    for (expr, _) in args.iter() {
+                        // Regardless if evaluation succeeds, we should create the macro argument symbol below, because
+                        // it will be undefined otherwise
+                        values.push(
+                            self.evaluate_expression(expr, true)?
+                                .unwrap_or(SymbolData::Placeholder),
+                        );
+                    }
 
-                            // Regardless if evaluation succeeds, we should create the macro argument symbol here, because
-                            // it will be undefined otherwise
-                            let value = s
-                                .evaluate_expression(expr, true)?
-                                .unwrap_or(SymbolData::Placeholder);
+                    self.with_scope(&macro_scope, None, |s| {
+                        for (arg_name, value) in def.args.iter().zip(values) {
                             s.add_symbol(
                                 &arg_name.data,
                                 s.symbol(arg_name.span, value, SymbolType::MacroArgument),
